@@ -4,6 +4,7 @@ import (
 	"encoding/json"
 	"fmt"
 	"log/slog"
+	"strings"
 
 	"github.com/goblimey/go-ntrip/rtcm/handler"
 	"github.com/goblimey/go-ntrip/rtcm/header"
@@ -80,7 +81,7 @@ func execC20Type(c *child.Ctx, t int, r *ref.SplitMix64, extraBodies int) {
 	}
 
 	// synthetic CRC-valid frames of this type with bodies of each decodable layout
-	bodies := []string{"msm4", "msm7", "1005", "1006", "random", "len7", "len8"}
+	bodies := []string{"msm4", "msm7", "1005", "1006", "random", "len7", "len8", "msm4-continued-empty", "msm7-continued-empty"}
 	for i := 0; i < extraBodies; i++ {
 		bodies = append(bodies, []string{"msm4", "msm7", "random", "random"}[i%4])
 	}
@@ -99,6 +100,26 @@ func execC20Type(c *child.Ctx, t int, r *ref.SplitMix64, extraBodies int) {
 			}
 			ts = m.Timestamp
 			payload = ref.EncodeMSMAs(m, body == "msm7")
+		case "msm4-continued-empty", "msm7-continued-empty":
+			// a continued message (multiple-message flag set) that carries no signal cell:
+			// satellites and signals announced, or not, and an all-clear cell mask
+			ns, ng := r.Range(0, 3), r.Range(0, 3)
+			m := &ref.MSM{Type: t, StationID: uint(r.Intn(4096)), Multiple: true, CellsSent: -1, PadBytes: r.Intn(3)}
+			for i := 0; i < ns; i++ {
+				m.SatMask |= uint64(1) << uint(63-2*i)
+				m.Sats = append(m.Sats, ref.Sat{Whole: uint(r.Intn(255)), Frac: uint(r.Intn(1024))})
+			}
+			for i := 0; i < ng; i++ {
+				m.SigMask |= uint32(1) << uint(30-3*i)
+			}
+			m.CellMask = make([]bool, ns*ng)
+			if ref.ConstellationOf(t) == "Glonass" {
+				m.Timestamp = uint(r.Range(1, 6))<<27 | uint(r.Range(1, 86399999))
+			} else {
+				m.Timestamp = uint(r.Range(1, 604799999))
+			}
+			ts = m.Timestamp
+			payload = ref.EncodeMSMAs(m, body == "msm7-continued-empty")
 		case "1005", "1006":
 			bt := 1005
 			if body == "1006" {
@@ -163,6 +184,17 @@ func execC20Type(c *child.Ctx, t int, r *ref.SplitMix64, extraBodies int) {
 					c.Violate("decoder-family", fmt.Sprintf("MSM7 decoder on type %d with a well-formed MSM7 body: error %v", t, err), cj)
 				}
 			}
+			if body == "msm4-continued-empty" || body == "msm7-continued-empty" {
+				// whether its own family takes such a message is not fixed by the property
+				// (the decoder wants a cell in a continued message); the other family and
+				// every other type must not
+				if _, err := msm4msg.GetMessage(frame, slog.LevelInfo); err == nil && !is4 {
+					c.Violate("decoder-family", fmt.Sprintf("the MSM4 decoder accepted a type %d frame (a continued message without signal cells)", t), cj)
+				}
+				if _, err := msm7msg.GetMessage(frame, slog.LevelInfo); err == nil && !is7 {
+					c.Violate("decoder-family", fmt.Sprintf("the MSM7 decoder accepted a type %d frame (a continued message without signal cells)", t), cj)
+				}
+			}
 			if body == "1005" {
 				_, err := type1005.GetMessage(frame, slog.LevelInfo)
 				if (err == nil) != (t == 1005) {
@@ -187,7 +219,7 @@ func execC20Type(c *child.Ctx, t int, r *ref.SplitMix64, extraBodies int) {
 				}
 				hasTime := m.Timestamp != 0 || m.SentAt != "" || m.StartOfWeek != ""
 				if is4 || is7 {
-					if (body == "msm4" || body == "msm7" || body == "len7" || body == "len8") && (m.Timestamp != ts || m.SentAt == "") {
+					if (body == "msm4" || body == "msm7" || body == "len7" || body == "len8" || strings.HasSuffix(body, "-continued-empty")) && (m.Timestamp != ts || m.SentAt == "") {
 						c.Violate("timestamp", fmt.Sprintf("type %d: extracted timestamp %d (SentAt %q), encoded %d", t, m.Timestamp, m.SentAt, ts), cj)
 					}
 				} else if hasTime {
@@ -253,6 +285,18 @@ func execC20Stream(c *child.Ctx, t int, r *ref.SplitMix64) {
 	frame := ref.Frame(body)
 	var in []byte
 	in = append(in, first...)
+	repeats := 0
+	if r.Chance(1, 2) {
+		// a multi-message epoch: the same type with the same timestamp again
+		repeats = r.Range(1, 3)
+		for j := 0; j < repeats; j++ {
+			if r.Chance(1, 2) {
+				in = append(in, first...)
+			} else {
+				in = append(in, timeFrame(r, mt, ts)...)
+			}
+		}
+	}
 	if r.Chance(2, 3) {
 		in = append(in, gen.Junk(r).Bytes...)
 	}
@@ -272,6 +316,11 @@ func execC20Stream(c *child.Ctx, t int, r *ref.SplitMix64) {
 		_, is7 := c20MSM7[mm.MessageType]
 		if mm.MessageType == t {
 			sawT = true
+		}
+		if i <= repeats && (mm.MessageType != mt || mm.Timestamp != ts || mm.SentAt == "" || mm.StartOfWeek == "") {
+			c.Violate("timestamp", fmt.Sprintf("in a stream, delivery %d of %d consecutive type %d messages with timestamp %d carries type %d, Timestamp=%d SentAt=%q StartOfWeek=%q",
+				i, repeats+1, mt, ts, mm.MessageType, mm.Timestamp, mm.SentAt, mm.StartOfWeek), cj)
+			return
 		}
 		if !is4 && !is7 && (mm.Timestamp != 0 || mm.SentAt != "" || mm.StartOfWeek != "") {
 			c.Violate("timestamp", fmt.Sprintf("in a stream, delivery %d (type %d, %d bytes, after a type %d message with timestamp %d) is not an MSM4/MSM7 but carries Timestamp=%d SentAt=%q StartOfWeek=%q",
